@@ -20,7 +20,8 @@ EXPLANATION = (
     "transpose; (D4) the matrix is computable for every real parameter: no division by an expression that can vanish, "
     "no numpy scalar reaching a sympy constructor un-sanitised; (D5) M * M^dagger = 1 identically; (D6) each "
     "one-parameter rotation/phase gate satisfies M(a) * M(b) = M(a + b) and M(0) = 1 identically in a, b; (D7) the "
-    "stated relations S*S=Z, T*T=S, SX*SX=X, H*Z*H=X, CNOT/CZ = 1 (+) X/Z, SWAP = qubit exchange, Delay = I = identity."
+    "stated relations S*S=Z, T*T=S, SX*SX=X, H*Z*H=X, CNOT/CZ = 1 (+) X/Z, SWAP = qubit exchange, Delay = I = identity. "
+    "(D6p) a factory that reduces a parameter modulo a period before building the matrix is accepted only if the folded closed form provably has that period (M(p+P) = M(p) in the normal form)."
 )
 RULE_TEXT = "instances = the 27 gate-table entries x {table, dimension, self-adjoint flag, computability, unitarity}, 10 group-law gates x {additivity, zero}, 9 fixed relations; exhaustive over the table, symbolic (normal-form) in the parameters"
 ASSUMPTIONS = [
